@@ -33,3 +33,6 @@ def run(ctx):
     run_kernels(ctx, ["K10", "K7", "K8", "K14", "K15", "K1"], "C12")
     from ..rules_flow import revcomp_wrapper_rule
     ctx.guard(revcomp_wrapper_rule, ctx, "C12.circular-revcomp")
+    # every class must compile the pattern of its own structure(): what the accepted language rests on
+    from ..rules_ast import persistent_state_rule
+    ctx.guard(persistent_state_rule, ctx, "C12.own-pattern")
